@@ -278,4 +278,28 @@ def c20(tier, seed):
                 exhaustive=False)
 
 
-CHECKS = {'C04': c04, 'C20': c20, 'C11': c11, 'C07': c07, 'C08': c08, 'C09': c09, 'C19': c19, 'C10': c10, 'C01': c01, 'C02': c02, 'C03': c03, 'C05': c05, 'C06': c06, 'C12': c12}
+
+def c15(tier, seed):
+    quick = tier == 'quick'
+    st = Stage('registry', mc=('RegistryMC', 'Registry_quick.cfg' if quick else 'Registry_thorough.cfg'),
+               emit=('RegistryMC', 'Registry_quick_emit.cfg' if quick else 'Registry_thorough_emit.cfg'),
+               extra_emits=[('RegistryMC', 'Registry_sim_emit.cfg', dict(simulate='num=%d' % (3000 if quick else 60000), depth=8, seed=None))]
+               + ([] if quick else [('RegistryMC', 'Registry_quick_emit.cfg', {})]),
+               driver='registry', trace=('RegistryTrace', 'RegistryTrace.cfg'),
+               nontrivial=lambda tr: any(e['ev'] == 'Probe' and e['reached'] not in ('none',) for e in tr['ev']))
+    return dict(stages=[st],
+                rule='registration histories over {add, add with explicit (dotted) name, view with / without prefix, merge} on 4 '
+                     'registries (prefixes none, "a", "a.b", and the dispatcher\'s own): %s; histories are replayed on real '
+                     'MethodRegistry objects and a sync or async dispatcher (alternating); after every operation every registry\'s '
+                     'key -> target table is validated, and at the end the dispatcher is probed with every registered name, every '
+                     'name one edit away (dropped / doubled / trailing dot, dropped segment, case flip) and private / non-callable '
+                     'member names; non-trivial = some probe reached a function'
+                     % ('ALL histories of length 4 over a 14-operation alphabet (merges 3 deep) + 3000 random walks of length 6 over the '
+                        'full 37-operation alphabet' if quick else
+                        'ALL histories of length 3 over the full 37-operation alphabet, all of length 4 over 14 operations, 60000 random walks of length 6'),
+                assumptions=ASSUME_COMMON + ['add_methods(Method(...)) into a PREFIXED registry is not explored (DESIGN 3.3: the '
+                                             'statement can be read either way)'],
+                exhaustive=False)
+
+
+CHECKS = {'C04': c04, 'C15': c15, 'C20': c20, 'C11': c11, 'C07': c07, 'C08': c08, 'C09': c09, 'C19': c19, 'C10': c10, 'C01': c01, 'C02': c02, 'C03': c03, 'C05': c05, 'C06': c06, 'C12': c12}
